@@ -158,7 +158,8 @@ def check(case, stats: Stats) -> None:
     try:
         out = curies.remap_curie_prefixes(conv, dict(mapping))
     except (R.DuplicateKeys, R.DuplicateValues, R.InconsistentMapping, R.CycleDetected) as e:
-        kind = type(e).__name__
+        # the documented classes are what counts (a more specific subclass still is one of them)
+        kind = next(name for name in ("DuplicateKeys", "DuplicateValues", "InconsistentMapping", "CycleDetected") if isinstance(e, getattr(R, name)))
         stats.cls("outcome:" + kind)
         owners_k = [id(model.owner(k)) for k in mapping if model.owner(k) is not None]
         owners_v = [id(model.owner(v)) for v in mapping.values() if model.owner(v) is not None]
